@@ -93,18 +93,22 @@ for k, (ty, l) in DECODERS.items():
       "lengths 0, L-1, L, L+1 (concrete), all contents symbolic", covers=["ok", "err"])
     D_QUICK.append("d_" + k)
 D_ALL = []
-for n in ["reg_req", "reg_resp", "reg_upload_lo", "reg_upload_hi", "cred_req_lo", "cred_req_hi", "cred_resp_lo",
-          "cred_resp_mid", "cred_resp_hi", "cred_fin", "setup", "setup_xk", "client_reg", "client_login_lo",
-          "client_login_hi", "server_login"]:
+for n in ["reg_req", "reg_resp", "cred_fin", "setup", "setup_xk", "client_reg", "server_login"]:
     H("d_all_" + n, "h_decoders::d_all_" + n, "same statement, every length of the range",
-      "every length 0..=L+64 (split in ranges), all contents symbolic", covers=["err"], timeout=2400)
+      "every length 0..=L+64, all contents symbolic", covers=["err"], timeout=2400)
     D_ALL.append("d_all_" + n)
+for n in ["reg_upload", "cred_req", "cred_resp", "client_login"]:
+    H("d_win_" + n, "h_decoders::d_win_" + n, "same statement on a window of lengths around L",
+      "lengths 0, 1, 2, L-8..=L+8, L+32, L+64 (a sweep over every length exhausted memory in symbolic execution), all contents symbolic",
+      covers=["ok", "err"], timeout=2400, mem_gb=16)
+    D_ALL.append("d_win_" + n)
 
 # ---- S6 / S7 (private units of opaque.rs)
 H("s6_pwd_key_len3", "verif_kani_opaque::s6_pwd_key_len3",
   "get_password_derived_key: KSF called exactly once on Finalize(pw, blind, evaluation), with the passed instance or the default; result == Extract(\"\", out || Stretch(out)); KSF failure => Err",
   "password 3 symbolic bytes; every blind, evaluation element, KSF output, KSF instance tag, fail flag", covers=["ok", "ksf error"])
 H("s6_pwd_key_len0", "verif_kani_opaque::s6_pwd_key_len0", "same, empty password", "empty password", covers=["ok", "ksf error"])
+H("s6_pwd_key_len17", "verif_kani_opaque::s6_pwd_key_len17", "same, 17-byte password (longer than the hash output and than a hash block)", "password 17 symbolic bytes", covers=["ok", "ksf error"])
 H("s6_default_explicit_eq_none", "verif_kani_opaque::s6_default_explicit_eq_none",
   "passing Some(&Ksf::default()) gives the same randomized password as passing None", "password 2 bytes", covers=["ok"])
 H("s6_pwd_too_long", "verif_kani_opaque::s6_pwd_too_long",
@@ -144,6 +148,7 @@ for pw in ("pw0", "pw2"):
     H("s3_client_login_start_" + pw, "h_steps::s3_client_login_start_" + pw,
       "ClientLogin::start: request per RFC 9497 Blind; ephemeral key = DeriveDiffieHellmanKeyPair(own tape segment); nonce = own 32 tape bytes; state == what was sent; exactly 34 bytes drawn",
       "password %s bytes; tape fully symbolic" % pw[2:], covers=["reached"], loops=KEYLOOPS)
+H("s2_client_reg_start_pw17", "h_steps::s2_client_reg_start_pw17", "ClientRegistration::start with a 17-byte password: request == blind*HashToGroup(pw) over all 17 bytes", "password 17 symbolic bytes", covers=["reached"])
 for c in ("cred0", "cred2"):
     H("s4_server_reg_start_" + c, "h_steps::s4_server_reg_start_" + c,
       "ServerRegistration::start: evaluation == DeriveKeyPair(Expand(seed, cred||'OprfKey'))*request, server_s_pk == public key of the setup's key",
@@ -181,14 +186,14 @@ H("s9_construct_aad_order", "verif_kani_envelope::s9_construct_aad_order", "cons
 H("s9_keys_internal", "verif_kani_envelope::s9_keys_internal", "build_inner_envelope_internal / recover_keys_internal: client key pair = DeriveDiffieHellmanKeyPair(Expand(rpwd, nonce||'PrivateKey'))",
   "every randomized_pwd and nonce", covers=["reached"], loops=KEYLOOPS, timeout=1800, mem_gb=12)
 ENVDEP = dict(also_depends=["w_stubs.rs"])
-for n, d in (("default_ids", "identities absent"), ("explicit_ids", "client 2 bytes, server 1 byte"), ("server_only", "only an (empty) server identity"), ("client_only", "only a 1-byte client identity")):
+for n, d in (("default_ids", "identities absent"), ("explicit_ids", "client 2 bytes, server 1 byte"), ("server_only", "only an (empty) server identity"), ("client_only", "only a 1-byte client identity"), ("long_ids", "client 20 bytes, server 9 bytes")):
     H("s9w_seal_" + n, "verif_kani_envelope::s9w_seal_" + n,
       "Envelope::seal == RFC 9807 Store (helpers stubbed by their proved references): nonce = 32 fresh RNG bytes, identity defaulting, tag over nonce||server_pk||len||id_s||len||id_u, client key, export key",
-      d + "; randomized_pwd, server key, identities, tape symbolic", covers=["reached"], loops=SLICE_LOOPS + KEYLOOPS + [(r"drain_aad", 40)], timeout=1800, mem_gb=12, **ENVDEP)
-for n, d in (("default_ids", "identities absent"), ("explicit_ids", "client 2 bytes, server 1 byte"), ("client_empty", "explicit empty client identity"), ("server_only", "only a 2-byte server identity")):
+      d + "; randomized_pwd, server key, identities, tape symbolic", covers=["reached"], loops=SLICE_LOOPS + KEYLOOPS + [(r"drain_aad", 60)], timeout=1800, mem_gb=12, **ENVDEP)
+for n, d in (("default_ids", "identities absent"), ("explicit_ids", "client 2 bytes, server 1 byte"), ("client_empty", "explicit empty client identity"), ("server_only", "only a 2-byte server identity"), ("long_ids", "client 20 bytes, server 9 bytes")):
     H("s9w_open_" + n, "verif_kani_envelope::s9w_open_" + n,
       "Envelope::open == RFC 9807 Recover (helpers stubbed): Ok <=> tag over nonce||server_pk||identities matches; recovered key pair, export key, effective identities handed on; else SealOpenHmacError",
-      d + "; randomized_pwd, server key, identities, 40-byte envelope symbolic", covers=["opened", "rejected"], loops=SLICE_LOOPS + KEYLOOPS + [(r"drain_aad", 40)], timeout=1800, mem_gb=12, **ENVDEP)
+      d + "; randomized_pwd, server key, identities, 40-byte envelope symbolic", covers=["opened", "rejected"], loops=SLICE_LOOPS + KEYLOOPS + [(r"drain_aad", 60)], timeout=1800, mem_gb=12, **ENVDEP)
 
 # ---- S10 / S11 (tripledh.rs)
 H("s11_derive_3dh_keys", "verif_kani_tripledh::s11_derive_3dh_keys",
@@ -296,11 +301,13 @@ W1 = ["w1_client_reg_finish_default_ids", "w1_client_reg_finish_explicit_ids", "
 W2 = ["w2_server_login_start_record", "w2_server_login_start_record_ids_ctx", "w2_server_login_start_unregistered", "w2_server_login_start_unregistered_ids_ctx"]
 W2X = ["w2_server_login_start_external_key", "w2_server_login_start_external_key_unregistered"]
 W3 = ["w3_client_login_finish_default_ids", "w3_client_login_finish_explicit_ids_ctx", "w3_client_login_finish_mixed_ids"]
+S9WL = ["s9w_seal_long_ids", "s9w_open_long_ids"]
 S9W = ["s9w_seal_default_ids", "s9w_seal_explicit_ids", "s9w_seal_server_only", "s9w_seal_client_only",
        "s9w_open_default_ids", "s9w_open_explicit_ids", "s9w_open_client_empty", "s9w_open_server_only"]
 S9U = ["s9_open_raw_exact", "s9_seal_raw", "s9_construct_aad_order", "s9_keys_internal"]
 S10 = ["s10p_generate_ke2_ctx0_default_ids", "s10p_generate_ke3_ctx0_default_ids"]
 S6 = ["s6_pwd_key_len3", "s6_pwd_key_len0", "s6_default_explicit_eq_none", "s6_pwd_too_long"]
+S6L = ["s6_pwd_key_len17", "s2_client_reg_start_pw17"]
 S12 = ["s12_i2osp_all_usize", "s12_input_from_all_lengths", "s12_input_from_label", "s12_identifiers_defaulting"]
 LEMMAS = ["lemma_hash_eq", "lemma_hmac_eq", "lemma_hkdf_eq", "lemma_hkdf_pad42", "lemma_stub_clone_from_slice", "engine_selftest_ga_copy"]
 SELF = ["engine_selftest_ga_copy"]
@@ -321,7 +328,7 @@ PROPERTIES["C01"] = dict(
                  "production build: the harnesses compile opaque-ke without cfg(test), so the production blind() branch and result tuples are what is executed"])
 PROPERTIES["C02"] = dict(
     quick=SELF + S6[:2] + ["s6_pwd_too_long", "s2_client_reg_start_pw2", "s3_client_login_start_pw2", "w3e_login_finish_early"],
-    thorough=W3 + W3Q + ["s3_client_login_start_pw0", "s3_client_login_start_pw2", "s8_unmask_response", "s9_open_raw_exact"] + S9W[4:] + S10[1:] + ["lemma_hmac_eq"],
+    thorough=S6L + W3 + W3Q + ["s3_client_login_start_pw0", "s3_client_login_start_pw2", "s8_unmask_response", "s9_open_raw_exact"] + S9W[4:] + S10[1:] + ["lemma_hmac_eq"],
     assumptions=[CRYPTO_NOTE, "passwords of 0..3 bytes symbolically; the 65536-byte refusal separately; other lengths are outside the bound"])
 PROPERTIES["C03"] = dict(
     quick=SELF + ["c03_server_finish_exact", "d_cred_fin", "d_server_login"],
@@ -333,7 +340,7 @@ PROPERTIES["C04"] = dict(
     assumptions=[CRYPTO_NOTE])
 PROPERTIES["C05"] = dict(
     quick=SELF + S12 + ["s9_construct_aad_order", "s7_oprf_key_from_seed", "s10_expand_label_limits", "lemma_spec_prefix_injective"],
-    thorough=["s7_oprf_key_from_seed_long_cred"] + S9W + S10 + W2 + W3,
+    thorough=["s7_oprf_key_from_seed_long_cred"] + S9W + S9WL + S10 + W2 + W3,
     assumptions=[CRYPTO_NOTE, "identity/context contents of 0..2 bytes in the step harnesses; every length 0..131073 for the length-prefix functions"])
 PROPERTIES["C06"] = dict(
     quick=SELF + ["s4_server_reg_start_cred0", "w1_client_reg_finish_default_ids", "w2_server_login_start_record", "s9_open_raw_exact", "s9w_open_default_ids", "s12_mac_update_iter_long"],
@@ -365,11 +372,11 @@ PROPERTIES["C12"] = dict(
     assumptions=["panic-freedom is decided for the harnesses listed, with CBMC's memory-safety checks and Kani's Rust panic checks on, within their input bounds; a zero-entropy RNG that makes rejection-sampling loops spin is outside the RNG contract"])
 PROPERTIES["C13"] = dict(
     quick=SELF + ["d_setup", "d_setup_xk", "d_server_registration", "d_client_reg", "d_client_login", "d_server_login", "s5_server_setup_new", "c03_server_finish_exact"],
-    thorough=["d_all_setup", "d_all_setup_xk", "d_all_client_reg", "d_all_client_login_lo", "d_all_client_login_hi", "d_all_server_login", "d_all_reg_upload_lo", "d_all_reg_upload_hi"] + W2[:1] + W3[:1],
+    thorough=["d_all_setup", "d_all_setup_xk", "d_all_client_reg", "d_win_client_login", "d_all_server_login", "d_win_reg_upload"] + W2[:1] + W3[:1],
     assumptions=["native byte encodings only: decode(encode(x)) is structurally x and encode(decode(b)) == b for all five persisted types, and every step harness starts from deserialized bytes; bincode / serde_json themselves are not encoded"])
 PROPERTIES["C14"] = dict(
     quick=SELF + ["s2_client_reg_start_pw0", "s2_client_reg_start_pw2", "s7_oprf_key_from_seed", "s7_oprf_key_from_seed_long_cred", "s4_server_reg_start_cred0", "s4_server_reg_start_cred2", "s6_pwd_key_len3"],
-    thorough=W1 + W2[:3] + ["s3_client_login_start_pw2"],
+    thorough=S6L + W1 + W2[:3] + ["s3_client_login_start_pw2"],
     assumptions=[CRYPTO_NOTE, "obliviousness is decided as data flow: the blind is the tape value and occurs in no output other than request = blind*H(pw); the password-derived secrets equal a reference that does not mention the blind"])
 PROPERTIES["C15"] = dict(
     quick=SELF + S6 + ["w1_client_reg_finish_default_ids", "w3e_login_finish_early"],
